@@ -172,7 +172,12 @@ def run_batch(batch):
                               f"{cm[k_b]['rho']:.4f})", case)
             rec.event('cycle_count_checks')
             rec.margin('extra_cycles_vs_base', r_['it'] - base['it'])
-            if not (r_['it'] <= base['it'] + 3):
+            # +3 as planned, but never below what the pinned tree itself
+            # needs (+2): ladders with a tiny, pre-asymptotic base member
+            # (16x3x10) legitimately need 4 more cycles on the finest grid.
+            allowed_it = max(base['it'] + 3,
+                             cm[k_s]['it'] - cm[k_b]['it'] + base['it'] + 2)
+            if not (r_['it'] <= allowed_it):
                 rec.violation('C06:cycle-count-grows', f"{r_['it']} cycles on "
                               f"{shape} vs {base['it']} on {batch['base']}",
                               case)
